@@ -1,4 +1,4 @@
-//go:build verif
+//go:build verif && c15
 
 package consensus
 
@@ -194,6 +194,17 @@ func (j *c15Journal) add(b []byte) *c15Rec {
 	j.recs = append(j.recs, r)
 	j.byKey[string(r.bytes)] = r
 	j.byHdr[string(r.bytes[:8])] = append(j.byHdr[string(r.bytes[:8])], r)
+	return r
+}
+
+// a record the WAL accepted without handing any bytes to the group: it can never be found in a file
+func (j *c15Journal) addPhantom(kind string, h int64) *c15Rec {
+	b := make([]byte, 16)
+	binary.BigEndian.PutUint32(b[4:8], 8)
+	binary.BigEndian.PutUint64(b[8:], uint64(len(j.recs)+1)|1<<63)
+	r := &c15Rec{ID: len(j.recs) + 1, Kind: kind, H: h, Size: len(b), bytes: b}
+	j.recs = append(j.recs, r)
+	j.byKey[string(b)] = r
 	return r
 }
 
@@ -628,8 +639,12 @@ func (e *c15Env) doWrite(kind string, big, sync bool) {
 	} else {
 		err = e.wal.Write(msg)
 	}
-	if len(tee.nw) != 1 {
+	if len(tee.nw) > 1 {
 		e.sh.t.Fatalf("C15: one WAL write produced %d group writes", len(tee.nw))
+	}
+	if len(tee.nw) == 0 {
+		// nothing reached the group although the call returned: the record exists only as a promise
+		tee.nw = []*c15Rec{e.jr.addPhantom(kind, e.curH)}
 	}
 	r := tee.nw[0]
 	if kind == "eh" {
@@ -1490,6 +1505,9 @@ type c15TapWAL struct {
 
 func (w *c15TapWAL) emitOp(m int, ev string, nw []*c15Rec, err error) {
 	row := map[string]interface{}{"ev": ev, "err": c15Err(err)}
+	if len(nw) == 0 && ev != "FlushAndSync" {
+		nw = []*c15Rec{w.e.jr.addPhantom("in", w.e.curH)}
+	}
 	if len(nw) == 1 {
 		row["rec"] = w.e.recJSON(nw[0])
 	} else if ev != "FlushAndSync" {
